@@ -385,7 +385,7 @@ def main_check(prop, argv):
         ev["coverage"]["fuzz_campaigns"] = camp.get("info", {})
     if getattr(mod, "EXHAUSTIVE_NOTE", None):
         ev["coverage"]["exhaustive_parts"] = mod.EXHAUSTIVE_NOTE
-    write_evidence(prop, ev)
+    write_evidence(prop, ev, alt=bool(a.shards or a.examples is not None))
     print("%s %s seed=%d: %d evaluations, %d distinct non-trivial, %d known-excluded, %d violation(s), %.1fs"
           % (prop, tier, a.seed, evaluations, len(nontrivial), sum(excluded.values()), len(seen),
              time.time() - t0))
@@ -401,9 +401,9 @@ def main_check(prop, argv):
     return 0
 
 
-def write_evidence(prop, ev):
+def write_evidence(prop, ev, alt=False):
     d = os.path.join(VERIF, "evidence")
-    if os.path.realpath(REPO) != "/repo" or os.environ.get("VERIF_NO_EVIDENCE"):
+    if alt or os.path.realpath(REPO) != "/repo" or os.environ.get("VERIF_NO_EVIDENCE"):
         d = os.path.join(VERIF, "out", "evidence_alt")     # mutant / scratch runs never touch real evidence
     os.makedirs(d, exist_ok=True)
     tmp = os.path.join(d, prop + ".json.tmp")
